@@ -425,9 +425,14 @@ class C02(Sim):
                 # exactly the per-variable values already compared above.
                 try:
                     mat = np.asarray(A.output_values, dtype=float)
-                except Exception:
+                except Exception as e:
                     mat = None
                     st.hit("outcomes.output_matrix_getter_raised")
+                    if all(m is not None for m in b_mat) and len(b_mat) == k and not huge:
+                        # Engine.output_values is the observation point the property names: it works after every single row
+                        # but raises after the same rows as one batch (an output that holds one value for the whole batch)
+                        viol = Violation("output_matrix_getter_raises_in_batch_mode", i, exception=type(e).__name__, message=str(e)[:160],
+                                         rows=k, shapes=str([np.shape(ov.value) for ov in A.output_variables]))
                 if mat is not None and mat.shape == (k, len(A.output_variables)) and all(m is not None for m in b_mat):
                     st.hit("probes.output_matrix_compared")
                     for r in range(k):
